@@ -352,7 +352,7 @@ type clockStore struct {
 
 func findClockStores(p *Prog, sf *ssa.Function, clockF *types.Var) []clockStore {
 	var out []clockStore
-	for _, st := range fieldStores(sf, clockF, false) {
+	for _, st := range p.fieldStoresGroup(sf, clockF) {
 		cs := clockStore{st: st}
 		v := st.Val
 		if mi, ok := v.(*ssa.MakeInterface); ok {
@@ -388,10 +388,10 @@ func runC04(c *Ctx, r *Report) {
 	appendSingleSection(c, r, "R-C04.6", "a concurrent append or merge changes the heads in the window, so the new entry does not name the current heads and its clock does not dominate them")
 	clockF, headsF, identF := p.Field("", "IPFSLog", "Clock"), p.Field("", "IPFSLog", "heads"), p.Field("", "IPFSLog", "Identity")
 	me := &monoEngine{p: p, clockF: clockF, headsF: headsF, maxLike: map[*ssa.Function]int{}, accum: map[*ssa.Function]int{}}
-	app := p.Func("", "IPFSLog", "Append")
-	join := p.Func("", "IPFSLog", "Join")
-	setID := p.Func("", "IPFSLog", "SetIdentity")
-	newLog := p.Func("", "", "NewLog")
+	app := p.FuncI("", "IPFSLog", "Append")
+	join := p.FuncI("", "IPFSLog", "Join")
+	setID := p.FuncI("", "IPFSLog", "SetIdentity")
+	newLog := p.FuncI("", "", "NewLog")
 
 	// ---- R-C04.2
 	type res struct {
